@@ -98,7 +98,7 @@ def _worker(arg):
 
 def main(tier: str) -> int:
     run = common.Run(PROP, tier)
-    n = 300 if tier == 'quick' else 20000
+    n = 300 if tier == 'quick' else 100000
     run.require('entries_compared')
     for item, res in run.pmap(_worker, [(run.seed, i) for i in range(n)], chunksize=25):
         common.absorb(run, {'seed': item[0], 'stream': item[1]}, res)
